@@ -146,6 +146,8 @@ def run(ck: Check, repo: Repo) -> None:
     ck.rule("C16.9", "the distribution wrapper of a stochastic actor is rebuilt as it was built: the EvolvableDistribution created in recreate_network receives every "
                      "constructor argument the one created in __init__ received (action space, std initialisation, squash_output, device), from the stored attributes")
     _wrapper_rebuild(ck, repo)
+    from ._c16_r3 import run_r3
+    run_r3(ck, repo)
     ck.rule("C16.10", "in training mode the action handed out is the sampled one: get_action clips / rescales a continuous action only under `not self.training` "
                       "(obligations of C14.3, shared) — otherwise the stored action differs from the one its log-probability belongs to")
     from dataclasses import replace
@@ -442,7 +444,19 @@ def _reeval(ck: Check, repo: Repo) -> None:
         ck.ob("C16.6", ev, lc, dotted(lc.args[0]) == "actions", "the log-probability is asked for the actions that were passed in")
     gv = repo.fn("agilerl.algorithms.ppo", "PPO._get_action_and_values")
     src = ast.unparse(gv.node)
-    ck.ob("C16.6", gv, gv.node, has(src, 'self.actor.extract_features($obs)') and has(src, 'self.actor.forward_head($latent_pi, action_mask=$action_mask)'),
+    # the head is evaluated on the features extracted from the given observations: forward_head(latent, ...) or, equivalently, head_net(latent, ...) /
+    # head_net.forward(latent, ...); the latent argument is (a single-definition local bound to) self.actor.extract_features(<observation parameter>)
+    gcfg = CFG(gv.node)
+    head_calls = [c for c in calls_in(gv.node) if dotted(c.func) in ("self.actor.forward_head", "self.actor.head_net", "self.actor.head_net.forward") and c.args]
+
+    def _is_features(e: ast.AST, at) -> bool:
+        if isinstance(e, ast.Call) and dotted(e.func) == "self.actor.extract_features" and e.args and isinstance(e.args[0], ast.Name) and e.args[0].id in gv.params:
+            return True
+        if isinstance(e, ast.Name) and at is not None:
+            ds = gcfg.defs_reaching(at, e.id)
+            return bool(ds) and all(gcfg.value_of_def(d, e.id) is not None and _is_features(gcfg.value_of_def(d, e.id), d) for d in ds)
+        return False
+    ck.ob("C16.6", gv, gv.node, bool(head_calls) and all(_is_features(c.args[0], gcfg.node_of(c)) for c in head_calls),
           "_get_action_and_values feeds the actor's head with the features of the given observations", construct="_get_action_and_values")
     ip = repo.fn("agilerl.algorithms.ippo", "IPPO._learn_individual")
     icfg = CFG(ip.node)
@@ -505,6 +519,372 @@ def _wrapper_rebuild(ck: Check, repo: Repo) -> None:
               construct=f"StochasticActor: wrapper argument {prm}")
 
 
+_KINDS = ("Discrete", "MultiDiscrete", "MultiBinary")  # the space kinds apply_mask supports; "other" stands for every other kind
+_ALL = frozenset(_KINDS + ("other",))
+Val = Tuple  # ("L",) the logits argument | ("M", ops) the mask argument after the conversions `ops` | ("split", base, sizes, dim) | ("piece", base, sizes, dim, index)
+#              | ("W",) the whole logits tensor, every entry masked with the mask entry at its own position | ("mpiece", sizes, dim, index) one such piece
+#              | ("list", element, loop, all pieces visited in order?) | ("bad", why)
+
+
+def _show(v: Val) -> str:
+    return {"W": "every logit masked with the mask entry at its position", "L": "the logits, not masked", "M": "the mask"}.get(v[0]) or \
+        (v[1] if v[0] == "bad" else {"split": "the pieces of a split", "piece": "one piece of a split", "mpiece": "one masked piece", "list": "a list of pieces, not concatenated"}.get(v[0], v[0]))
+
+
+def _converted(ops: Tuple[str, ...]) -> bool:
+    """The conversions turn the caller's mask into booleans and the last change of shape gives it the logits' shape."""
+    shapes = [o for o in ops if o.startswith("shape")]
+    return "bool" in ops and bool(shapes) and shapes[-1] == "shape of the logits"
+
+
+class _MaskLayout:
+    """Which (logit, mask entry) pairs meet in the selection primitive, for every value the function can return, per kind of action space.
+
+    Locals are followed along their reaching definitions (also through conditional expressions, loop variables of `zip` loops, lists built by `append` in a
+    loop or by a comprehension); the kinds of action space a definition can be executed for are read off the isinstance tests that guard it."""
+
+    def __init__(self, fn: Fn, primitive: str, prim_params: List[str], i_logits: int, i_mask: int):
+        self.fn, self.cfg = fn, CFG(fn.node)
+        self.primitive, self.prim_params, self.i_logits, self.i_mask = primitive, prim_params, i_logits, i_mask
+        self.p_logits, self.p_mask = (fn.named_params + ["?", "?", "?"])[1:3]
+        self.mask_uses: List[Tuple[Tuple[str, ...], ast.AST]] = []  # (conversions, site) of every mask value that is consumed
+        self._kinds: Dict[int, frozenset] = {}
+        self._parent: Dict[int, ast.AST] = {}
+        for x in ast.walk(fn.node):
+            for ch in ast.iter_child_nodes(x):
+                self._parent[id(ch)] = x
+
+    # ---------------------------------------------------------------------------------------- kinds of action space
+    def _is_space(self, e: ast.AST, n: Node) -> bool:
+        if dotted(e) == "self.action_space":
+            return True
+        if isinstance(e, ast.Name):
+            vals = _alt_values(self.cfg, n, e.id)
+            return bool(vals) and all(v is not None and dotted(v) == "self.action_space" for v in vals)
+        return False
+
+    def _classes(self, e: ast.AST, n: Node, depth: int = 0) -> Optional[Set[str]]:
+        """The classes named by the second argument of isinstance (a class, a tuple of classes, a local bound to one)."""
+        if isinstance(e, ast.Tuple):
+            out: Set[str] = set()
+            for x in e.elts:
+                c = self._classes(x, n, depth)
+                if c is None:
+                    return None
+                out |= c
+            return out
+        if isinstance(e, ast.Name) and depth < 4:
+            defs = self.cfg.defs_reaching(n, e.id)
+            if defs:
+                v = self.cfg.value_of_def(defs[0], e.id) if len(defs) == 1 else None
+                return self._classes(v, defs[0], depth + 1) if v is not None else None
+        d = dotted(e)
+        return {d.split(".")[-1]} if d and "?" not in d else None
+
+    def narrow(self, test: ast.AST, pol: bool, kinds: frozenset, n: Node) -> frozenset:
+        """The kinds left when `test` came out as `pol`."""
+        while isinstance(test, ast.UnaryOp) and isinstance(test.op, ast.Not):
+            test, pol = test.operand, not pol
+        if isinstance(test, ast.BoolOp):
+            if isinstance(test.op, ast.And) == pol:  # all operands came out as pol
+                for v in test.values:
+                    kinds = self.narrow(v, pol, kinds, n)
+                return kinds
+            return frozenset().union(*[self.narrow(v, pol, kinds, n) for v in test.values])
+        if isinstance(test, ast.Call) and call_name(test) == "isinstance" and len(test.args) == 2 and self._is_space(test.args[0], n):
+            cs = self._classes(test.args[1], n)
+            if cs is None:
+                return kinds
+            if pol:
+                return kinds & frozenset((cs & set(_KINDS)) | ({"other"} if cs - set(_KINDS) else set()))
+            return kinds - (cs & set(_KINDS))
+        return kinds
+
+    def kinds_at(self, n: Node) -> frozenset:
+        if n.id not in self._kinds:
+            k = _ALL
+            for g, pol, t in self.cfg.guards_at(n):
+                k = self.narrow(g, pol, k, t)
+            self._kinds[n.id] = k
+        return self._kinds[n.id]
+
+    # ---------------------------------------------------------------------------------------- values
+    def _loops(self, s: Optional[ast.AST]) -> List[int]:
+        """The loops the statement lies in (outermost first)."""
+        out: List[int] = []
+        while s is not None and s is not self.fn.node:
+            s = self._parent.get(id(s))
+            if isinstance(s, (ast.For, ast.While, ast.AsyncFor)):
+                out.insert(0, id(s))
+        return out
+
+    def _key(self, e: ast.AST, n: Node) -> str:
+        """Two expressions with the same key have the same value: same text, every local in it with the same reaching definitions."""
+        names = sorted({(x.id, tuple(d.id for d in self._defs(n, x.id))) for x in ast.walk(e) if isinstance(x, ast.Name)})
+        return ast.unparse(e) + " " + repr(names)
+
+    def _defs(self, n: Node, name: str) -> List[Node]:
+        defs = self.cfg.defs_reaching(n, name)
+        if n.kind == "for":  # the iterable is evaluated once, before the loop: what the loop itself binds does not reach it
+            defs = [d for d in defs if not self.cfg.dominates(n, d)]
+        return defs
+
+    def _dim(self, c: ast.Call, pos: int) -> Optional[int]:
+        d = get_kw(c, "dim", pos)
+        v = 0 if d is None else const_value(d)
+        return (1 if v == -1 else v) if isinstance(v, int) and not isinstance(v, bool) else None
+
+    def _use(self, v: Val, site: ast.AST) -> None:
+        if v[0] == "M":
+            self.mask_uses.append((v[1], site))
+
+    def _probe(self, e: ast.AST, n: Node, kinds: frozenset, env, depth: int) -> None:
+        """An expression the model does not describe: its parts are still looked at (the mask values among them count as used)."""
+        for ch in ast.iter_child_nodes(e):
+            ch = ch.value if isinstance(ch, ast.keyword) else ch
+            if isinstance(ch, ast.expr) and not isinstance(ch, (ast.Lambda, ast.Constant)):
+                for _, v in self.ev(ch, n, kinds, env, depth + 1):
+                    self._use(v, ch)
+
+    def _pairs(self, parts: List[List[Tuple[frozenset, Val]]]) -> List[Tuple[frozenset, List[Val]]]:
+        out: List[Tuple[frozenset, List[Val]]] = [(_ALL, [])]
+        for alts in parts:
+            out = [(k & k2, vs + [v]) for k, vs in out for k2, v in alts if k & k2]
+        return out
+
+    def ev(self, e: Optional[ast.AST], n: Node, kinds: frozenset, env: Optional[Dict[str, Val]] = None, depth: int = 0) -> List[Tuple[frozenset, Val]]:
+        """(kinds of action space, value) for every alternative the expression e, evaluated at node n, can stand for."""
+        if e is None or depth > 24:
+            return [(kinds, ("bad", "a value that is not followed"))]
+        if isinstance(e, ast.IfExp):
+            out = []
+            for arm, pol in ((e.body, True), (e.orelse, False)):
+                k = self.narrow(e.test, pol, kinds, n)
+                out += self.ev(arm, n, k, env, depth + 1) if k else []
+            return out
+        if isinstance(e, ast.Name):
+            if env and e.id in env:
+                return [(kinds, env[e.id])]
+            return self._name(e.id, n, kinds, depth)
+        if isinstance(e, (ast.ListComp, ast.GeneratorExp)):
+            return self._comprehension(e, n, kinds, env, depth)
+        if isinstance(e, ast.Call):
+            return self._call(e, n, kinds, env, depth)
+        self._probe(e, n, kinds, env, depth)
+        return [(kinds, ("bad", f"`{short(e, 50)}` (not a whole tensor, nor the pieces of a split taken in order)"))]
+
+    def _name(self, name: str, n: Node, kinds: frozenset, depth: int) -> List[Tuple[frozenset, Val]]:
+        defs = self._defs(n, name)
+        if not defs:
+            return [(kinds, ("bad", f"`{name}` is not a local"))]
+        if any(self._append(d, name) is not None for d in defs):
+            return self._built_list(name, n, defs, kinds, depth)
+        out: List[Tuple[frozenset, Val]] = []
+        for d in defs:
+            k = kinds & self.kinds_at(d)
+            if not k:
+                continue  # the definition is made for other kinds of action space only
+            if d.kind == "entry":
+                out.append((k, ("L",) if name == self.p_logits else ("M", ()) if name == self.p_mask else ("bad", f"the argument `{name}`")))
+            elif d.kind == "for":
+                out += self._loop_var(name, d.ast.target, d.ast.iter, d, d.id, k, None, depth)
+            else:
+                v = self.cfg.value_of_def(d, name)
+                out += self.ev(v, d, k, None, depth + 1) if v is not None else [(k, ("bad", f"`{name}` as changed by `{short(d.ast, 50)}`"))]
+        return out
+
+    def _sources(self, target: ast.AST, it: ast.AST) -> Optional[List[Tuple[Optional[str], ast.AST]]]:
+        """(loop variable, what it runs over) for `for a, b in zip(x, y)` / `for a in x`."""
+        if isinstance(target, ast.Name):
+            return [(target.id, it)]
+        if isinstance(target, (ast.Tuple, ast.List)) and isinstance(it, ast.Call) and call_name(it) == "zip" and not it.keywords and len(it.args) == len(target.elts) \
+                and all(isinstance(t, ast.Name) for t in target.elts) and not any(isinstance(x, ast.Starred) for x in it.args):
+            return [(t.id, x) for t, x in zip(target.elts, it.args)]
+        return None
+
+    def _loop_var(self, name: str, target: ast.AST, it: ast.AST, n: Node, loop: int, kinds: frozenset, env, depth: int) -> List[Tuple[frozenset, Val]]:
+        srcs = self._sources(target, it)
+        src = [x for t, x in srcs or [] if t == name]
+        if len(src) != 1:
+            self._probe(it, n, kinds, env, depth)
+            return [(kinds, ("bad", f"`{name}` bound by a loop over `{short(it, 50)}`"))]
+        return [(k, ("piece", v[1], v[2], v[3], ("it", loop)) if v[0] == "split" else v if v[0] == "bad" else ("bad", f"`{name}` runs over `{short(src[0], 40)}`"))
+                for k, v in self.ev(src[0], n, kinds, env, depth + 1)]
+
+    def _visits_all(self, target: ast.AST, it: ast.AST, n: Node, kinds: frozenset, env, depth: int) -> bool:
+        """The loop visits every piece once, in order: everything it runs over is a complete split."""
+        srcs = self._sources(target, it)
+        return bool(srcs) and all(v[0] == "split" for _, x in srcs for _, v in self.ev(x, n, kinds, env, depth + 1))
+
+    def _append(self, d: Node, name: str) -> Optional[ast.Call]:
+        s = d.ast
+        if d.kind == "stmt" and isinstance(s, ast.Expr) and isinstance(s.value, ast.Call) and isinstance(s.value.func, ast.Attribute) and dotted(s.value.func.value) == name \
+                and s.value.func.attr == "append" and len(s.value.args) == 1 and not s.value.keywords:
+            return s.value
+        return None
+
+    def _built_list(self, name: str, n: Node, defs: List[Node], kinds: frozenset, depth: int) -> List[Tuple[frozenset, Val]]:
+        """A list that starts empty and receives one element per iteration of one loop is the comprehension over that loop."""
+        def no(why: str) -> List[Tuple[frozenset, Val]]:
+            return [(kinds, ("bad", f"the list `{name}`: {why}"))]
+        apps = [d for d in defs if self._append(d, name) is not None]
+        start = [d for d in defs if d not in apps]
+        v0 = self.cfg.value_of_def(start[0], name) if len(start) == 1 else None
+        if not (isinstance(v0, ast.List) and not v0.elts or isinstance(v0, ast.Call) and call_name(v0) == "list" and not v0.args and not v0.keywords):
+            return no("it does not start as one empty list")
+        if len(apps) != 1:
+            return no("elements are added at several places")
+        others = [c for c in calls_in(self.fn.node) if isinstance(c.func, ast.Attribute) and dotted(c.func.value) == name and c is not self._append(apps[0], name)]
+        if others:
+            return no(f"it is also changed by `{short(others[0], 50)}`")
+        loop = self._parent.get(id(apps[0].ast))
+        fornode = next((x for x in self.cfg.live_nodes() if x.kind == "for" and x.ast is loop), None)
+        if not isinstance(loop, ast.For) or fornode is None or apps[0].ast not in loop.body or loop.orelse \
+                or any(isinstance(x, (ast.Continue, ast.Break, ast.Return, ast.Raise)) for s in loop.body for x in ast.walk(s)):
+            return no("the element is not added exactly once per iteration of a loop")
+        here = n.stmt if n.stmt is not None else n.ast
+        if not (self._loops(start[0].ast) == self._loops(loop) == self._loops(here) and self.cfg.dominates(start[0], fornode) and self.cfg.dominates(fornode, n)):
+            return no("it is not emptied before, or is read inside, the loop that fills it")
+        k = kinds & self.kinds_at(apps[0])
+        full = self._visits_all(loop.target, loop.iter, fornode, k, None, depth)
+        return [(k2, ("list", v, fornode.id, full)) for k2, v in self.ev(self._append(apps[0], name).args[0], apps[0], k, None, depth + 1)]
+
+    def _comprehension(self, e: ast.AST, n: Node, kinds: frozenset, env, depth: int) -> List[Tuple[frozenset, Val]]:
+        g = e.generators[0]
+        srcs = self._sources(g.target, g.iter) if len(e.generators) == 1 and not g.ifs and not g.is_async else None
+        if not srcs:
+            self._probe(e, n, kinds, env, depth)
+            return [(kinds, ("bad", f"`{short(e, 50)}` (not one loop over the zipped pieces)"))]
+        out = []
+        bound = [self._loop_var(t, g.target, g.iter, n, id(e), kinds, env, depth) for t, _ in srcs]
+        full = self._visits_all(g.target, g.iter, n, kinds, env, depth)
+        for k, vs in self._pairs(bound):
+            k = k & kinds
+            env2 = dict(env or {})
+            env2.update({t: v for (t, _), v in zip(srcs, vs)})
+            out += [(k2, ("list", v, id(e), full)) for k2, v in self.ev(e.elt, n, k, env2, depth + 1)] if k else []
+        return out
+
+    def _masked(self, a: Val, b: Val, c: ast.Call) -> Val:
+        self._use(b, c)
+        if a == ("L",) and b[0] == "M":
+            return ("W",)
+        if a[0] == "piece" and b[0] == "piece" and a[1] == ("L",) and b[1][0] == "M":
+            if a[2:] == b[2:]:
+                return ("mpiece",) + a[2:]
+            return ("bad", "logits and mask are split by different sizes" if a[2] != b[2] else "logits and mask are split along different axes" if a[3] != b[3]
+                    else "a piece of the logits meets another piece of the mask")
+        for x in (a, b):
+            if x[0] == "bad":
+                return x
+        return ("bad", f"`{short(c, 60)}` selects among {_show(a)} by {_show(b)}")
+
+    def _call(self, c: ast.Call, n: Node, kinds: frozenset, env, depth: int) -> List[Tuple[frozenset, Val]]:
+        name, attr = call_name(c), (c.func.attr if isinstance(c.func, ast.Attribute) else "")
+        recv = c.func.value if isinstance(c.func, ast.Attribute) and dotted(c.func.value) != "torch" else None
+
+        def bad(why: str) -> List[Tuple[frozenset, Val]]:
+            self._probe(c, n, kinds, env, depth)
+            return [(kinds, ("bad", why))]
+
+        def sub(x: Optional[ast.AST]) -> List[Tuple[frozenset, Val]]:
+            return self.ev(x, n, kinds, env, depth + 1)
+        if name.split(".")[-1] == self.primitive:
+            la, ma = get_kw(c, self.prim_params[self.i_logits], self.i_logits), get_kw(c, self.prim_params[self.i_mask], self.i_mask)
+            if la is None or ma is None or len(c.args) + len(c.keywords) != 2:
+                return bad(f"`{short(c, 60)}`: not (logits, mask)")
+            return [(k & kinds, self._masked(vs[0], vs[1], c)) for k, vs in self._pairs([sub(la), sub(ma)]) if k & kinds]
+        if attr == "split" and (recv is not None or name == "torch.split"):
+            x, sizes = (recv, get_kw(c, "split_size", 0)) if recv is not None else (get_kw(c, "tensor", 0), get_kw(c, "split_size_or_sections", 1))
+            dim = self._dim(c, 1 if recv is not None else 2)
+            if x is None or sizes is None or dim is None:
+                return bad(f"`{short(c, 60)}`: split not understood")
+            out = []
+            for k, v in sub(x):
+                self._use(v, c)
+                out.append((k, ("split", v, self._key(sizes, n), dim) if v[0] in ("L", "M") else v if v[0] == "bad" else ("bad", f"`{short(c, 50)}` splits {_show(v)}")))
+            return out
+        if name in ("torch.cat", "torch.concat", "torch.concatenate"):
+            x, dim = get_kw(c, "tensors", 0), self._dim(c, 1)
+            out = []
+            for k, v in sub(x):
+                if v[0] == "list" and v[1][0] == "mpiece" and v[1][2] == dim and v[1][3] == ("it", v[2]) and v[3]:
+                    out.append((k, ("W",)))
+                elif v[0] == "list" and v[1][0] == "bad":
+                    out.append((k, v[1]))
+                else:
+                    out.append((k, ("bad", f"`{short(c, 60)}` does not put all masked pieces back in their order, along the axis they were split on")))
+            return out
+        if name in ("list", "tuple") and len(c.args) == 1 and not c.keywords:
+            return [(k, v if v[0] in ("list", "split", "bad") else ("bad", f"`{short(c, 50)}`")) for k, v in sub(c.args[0])]
+        # conversions of the mask
+        conv: Optional[Tuple[ast.AST, str]] = None
+        if name in ("torch.as_tensor", "torch.tensor") and c.args:
+            conv = (c.args[0], "bool" if dotted(get_kw(c, "dtype") or c) == "torch.bool" else "tensor")
+        elif recv is not None and attr in ("bool", "to", "contiguous", "clone", "detach"):
+            conv = (recv, "bool" if attr == "bool" or any(dotted(x) == "torch.bool" for x in list(c.args) + [k.value for k in c.keywords]) else "same")
+        elif recv is not None and attr in ("view", "reshape", "view_as", "reshape_as", "expand", "expand_as", "flatten", "squeeze", "unsqueeze", "repeat", "permute", "transpose", "t", "flip", "roll"):
+            like = c.args[0] if len(c.args) == 1 and not c.keywords else None
+            if attr in ("view", "reshape") and isinstance(like, ast.Starred):
+                like = like.value
+            if attr in ("view", "reshape"):
+                like = like.value if isinstance(like, ast.Attribute) and like.attr == "shape" else like.func.value if isinstance(like, ast.Call) and last_attr(like) == "size" and not like.args else None
+            elif attr not in ("view_as", "reshape_as"):
+                like = None
+            same = like is not None and all(v == ("L",) for _, v in sub(like))
+            conv = (recv, "shape of the logits" if same else f"shape by `.{attr}({', '.join(short(x, 30) for x in c.args)})`")
+        if conv is not None:
+            return [(k, ("M", v[1] + (conv[1],)) if v[0] == "M" else v if v[0] == "bad" else ("bad", f"`{short(c, 50)}`")) for k, v in sub(conv[0])]
+        return bad(f"`{short(c, 60)}` (not a whole tensor, nor the pieces of a split taken in order)")
+
+    # ---------------------------------------------------------------------------------------- what the obligations ask
+    def returned(self) -> List[Tuple[frozenset, Val]]:
+        out: List[Tuple[frozenset, Val]] = []
+        for r in [n for n in self.cfg.live_nodes() if n.kind == "stmt" and isinstance(n.ast, ast.Return)]:
+            out += self.ev(r.ast.value, r, self.kinds_at(r))
+        return out
+
+    def rejects_other(self) -> bool:
+        """A `raise NotImplementedError` that kinds other than the supported ones reach."""
+        return any("other" in self.kinds_at(n) for n in self.cfg.live_nodes() if n.kind == "stmt" and isinstance(n.ast, ast.Raise) and n.ast.exc is not None
+                   and dotted(n.ast.exc.func if isinstance(n.ast.exc, ast.Call) else n.ast.exc) == "NotImplementedError")
+
+    def _leaves(self, e: Optional[ast.AST], n: Node, kinds: frozenset, depth: int = 0) -> List[Tuple[frozenset, Optional[ast.AST]]]:
+        """The expressions a value can come from (through locals and conditional expressions), each with the kinds it is used for."""
+        if isinstance(e, ast.IfExp):
+            return [x for arm, pol in ((e.body, True), (e.orelse, False)) for x in self._leaves(arm, n, self.narrow(e.test, pol, kinds, n), depth + 1)]
+        if isinstance(e, ast.Name) and depth < 12 and self._defs(n, e.id):
+            return [x for d in self._defs(n, e.id) for x in self._leaves(self.cfg.value_of_def(d, e.id), d, kinds & self.kinds_at(d), depth + 1)]
+        return [(kinds, e)]
+
+    def split_sizes(self) -> List[Tuple[frozenset, Optional[ast.AST], bool]]:
+        """(kinds, sizes expression, the space's own component sizes?) for every split in the function: list(nvec) for MultiDiscrete, [n] for the others."""
+        out = []
+        for c in calls_in(self.fn.node):
+            n = self.cfg.node_of(c)
+            if n is None or not (isinstance(c.func, ast.Attribute) and c.func.attr == "split"):
+                continue
+            sizes = get_kw(c, "split_size_or_sections", 1) if call_name(c) == "torch.split" else get_kw(c, "split_size", 0)
+            k0 = self.kinds_at(n)
+            for t, pol in [(t, pol) for root in n.exprs() for t, pol in _arm_tests(root, c)]:
+                k0 = self.narrow(t, pol, k0, n)
+            for k, leaf in self._leaves(sizes, n, k0):
+                k = k - {"other"}
+                if not k:
+                    continue
+                of = leaf
+                if isinstance(leaf, ast.Call) and call_name(leaf) in ("list", "tuple") and len(leaf.args) == 1:
+                    of = leaf.args[0]
+                elif isinstance(leaf, ast.Call) and last_attr(leaf) == "tolist" and not leaf.args:
+                    of = leaf.func.value
+                elif isinstance(leaf, (ast.List, ast.Tuple)) and len(leaf.elts) == 1:
+                    of = leaf.elts[0]
+                wrapped = of is not leaf and not isinstance(leaf, (ast.List, ast.Tuple))
+                own = isinstance(of, ast.Attribute) and self._is_space(of.value, n) and of.attr
+                out.append((k, leaf, (own == "nvec" and wrapped and k == {"MultiDiscrete"}) or (own == "n" and not wrapped and "MultiDiscrete" not in k)))
+        return out
+
+
 def _mask(ck: Check, repo: Repo) -> None:
     am = repo.fn(DM, "apply_action_mask_discrete")
     rets = [n for n in walk_no_nested(am.node) if isinstance(n, ast.Return)]
@@ -524,24 +904,56 @@ def _mask(ck: Check, repo: Repo) -> None:
     ck.ob("C16.7", am, rebinds[0] if rebinds else am.node, not rebinds, "every entry the caller's mask marks as illegal is masked (the mask is used as given)",
           detail=f"`{short(rebinds[0], 80)}` changes the mask / logits before the selection: entries marked illegal can keep their logit (for MultiBinary an all-zero row means "
                  "'no bit may be set' and must stay fully masked)" if rebinds else "", construct="apply_action_mask_discrete: mask used as given")
+    # ---- apply_mask: every logit is masked with the mask entry at the SAME position.  The four obligations below are read off one small evaluation of the
+    # values apply_mask can return (def-use chains with the space kinds known at each definition), not off the spelling of the function: masking the whole
+    # tensor element-wise, and splitting logits and mask alike / masking each piece with its own piece / concatenating in order, are the same program.
     ap = repo.fn(DM, "EvolvableDistribution.apply_mask")
-    src = ast.unparse(ap.node)
-    ck.ob("C16.7", ap, ap.node, has(src, 'torch.as_tensor($mask, dtype=torch.bool, device=self.device).view($logits.shape)'), "the mask is converted to booleans with the logits' shape",
+    prm = am.named_params
+    sel = rets[0].value.args if ok and dotted(rets[0].value.args[0]) in prm and dotted(rets[0].value.args[1]) in prm else None
+    # the primitive's parameters by role: the one torch.where keeps (logits) and the one it tests (mask)
+    lay = _MaskLayout(ap, am.qualname, prm, prm.index(dotted(sel[1])) if sel else 0, prm.index(dotted(sel[0])) if sel else 1)
+    alts = lay.returned()
+    ck.note("apply_mask_values", [f"{'|'.join(sorted(k))}: {_show(v)}" for k, v in alts])
+    convs = lay.mask_uses
+    bad_conv = [ops for ops, _ in convs if not _converted(ops)]
+    ck.ob("C16.7", ap, ap.node, bool(convs) and not bad_conv, "the mask is converted to booleans with the logits' shape",
+          detail=("the mask that reaches the selection is " + "; ".join("the argument" + "".join(f" -> {o}" for o in ops) for ops in bad_conv[:3]) +
+                  ": entry (i, j) of the caller's mask is not shown to decide about logit (i, j)") if bad_conv else ("" if convs else "no use of the mask argument found"),
           construct="mask conversion")
-    ck.ob("C16.7", ap, ap.node, _has_choice(src, 'list(self.action_space.nvec) if isinstance(self.action_space, spaces.MultiDiscrete) else [self.action_space.n]'),
-          "multi-discrete masks are split by nvec, multi-binary by n", construct="mask split sizes")
-    ck.ob("C16.7", ap, ap.node, has(src, 'torch.split($mask, $splits, dim=1)') and has(src, 'torch.split($logits, $splits, dim=1)') and has(src, 'zip($split_logits, $split_masks)')
-          and has(src, 'torch.cat($masked_logits, dim=1)'), "each component's logits are masked with that component's mask and re-assembled in order", construct="mask per component")
-    cfg = CFG(ap.node)
-    calls = [c for c in calls_in(ap.node) if call_name(c) == "apply_action_mask_discrete"]
-    ck.ob("C16.7", ap, ap.node, len(calls) == 2 and all(len(c.args) == 2 for c in calls) and has(src, 'raise NotImplementedError'), "every supported discrete space kind is masked; others are rejected",
-          construct="apply_mask dispatch")
+    sizes = lay.split_sizes()
+    wrong = [(k, leaf) for k, leaf, good in sizes if not good]
+    ck.ob("C16.7", ap, ap.node, not wrong, "multi-discrete masks are split by nvec, multi-binary by n",
+          detail="; ".join(f"{'/'.join(sorted(k))} split by `{short(leaf, 40)}`" for k, leaf in wrong[:3]) if wrong else
+          ("" if sizes else "no split: the mask is applied to the whole tensor at once"), construct="mask split sizes")
+    broken = [v for k, v in alts if v[0] not in ("W", "L", "M")]
+    ck.ob("C16.7", ap, ap.node, bool(alts) and not broken, "each component's logits are masked with that component's mask and re-assembled in order",
+          detail="; ".join(_show(v) for v in broken[:3]), construct="mask per component")
+    masked = set().union(*[k for k, v in alts if v == ("W",)]) if alts else set()
+    unmasked = [(k, v) for k, v in alts if v != ("W",) and k & set(_KINDS)]
+    ck.ob("C16.7", ap, ap.node, set(_KINDS) <= masked and not unmasked and not any("other" in k for k, _ in alts) and lay.rejects_other(),
+          "every supported discrete space kind is masked; others are rejected",
+          detail="; ".join(f"{'|'.join(sorted(k))}: {_show(v)}" for k, v in alts)[:300], construct="apply_mask dispatch")
 
 
 _DF = "agilerl/networks/distributions.py"
 _AF = "agilerl/networks/actors.py"
 _PF = "agilerl/algorithms/ppo.py"
+_AP_CONV = "        mask = torch.as_tensor(mask, dtype=torch.bool, device=self.device).view(\n            logits.shape\n        )\n"
+_AP_BUILD = ("            masked_logits = []\n            for split_logits, split_mask in zip(split_logits, split_masks):\n                masked_logits.append(\n"
+             "                    apply_action_mask_discrete(split_logits, split_mask)\n                )\n")
+_AP_DISPATCH = ("        if isinstance(self.action_space, spaces.Discrete):\n            masked_logits = apply_action_mask_discrete(logits, mask)\n"
+                "        elif isinstance(self.action_space, (spaces.MultiDiscrete, spaces.MultiBinary)):\n            splits = (\n                list(self.action_space.nvec)\n"
+                "                if isinstance(self.action_space, spaces.MultiDiscrete)\n                else [self.action_space.n]\n            )\n"
+                "            # Split mask and logits into separate distributions\n            split_masks = torch.split(mask, splits, dim=1)\n"
+                "            split_logits = torch.split(logits, splits, dim=1)\n\n            # Apply mask to each split\n" + _AP_BUILD +
+                "\n            masked_logits = torch.cat(masked_logits, dim=1)\n        else:\n            raise NotImplementedError(\n"
+                "                f\"Action space {self.action_space} not supported.\"\n            )\n\n        return masked_logits\n")
 VARIANTS = [
+    ("ppo-acting-path-through-rescaling-forward", "agilerl/algorithms/ppo.py", "        latent_pi = self.actor.extract_features(obs)\n        action, log_prob, entropy = self.actor.forward_head(\n            latent_pi, action_mask=action_mask\n        )",
+     "        latent_pi = self.actor.extract_features(obs)\n        action, log_prob, entropy = self.actor(obs, action_mask=action_mask)", "fire", "C16.11"),
+    ("ppo-acting-path-head-net-directly-ok", "agilerl/algorithms/ppo.py", "        action, log_prob, entropy = self.actor.forward_head(\n            latent_pi, action_mask=action_mask\n        )",
+     "        action, log_prob, entropy = self.actor.head_net.forward(latent_pi, action_mask)", "silent", None),
+
     ("stochastic-actor-rebuild-drops-squash", "agilerl/networks/actors.py", "            action_std_init=self.action_std_init,\n            squash_output=self.squash_output,\n            device=self.device,", "            action_std_init=self.action_std_init,\n            device=self.device,", "fire", "C16.9"),
     ("ippo-clips-in-training-mode", "agilerl/algorithms/ippo.py", "            if not self.training and isinstance(agent_space, spaces.Box):", "            if isinstance(agent_space, spaces.Box):", "fire", "C16.10"),
     ("bernoulli-no-sum", _DF, "        return distribution.log_prob(action).sum(dim=1)\n\n    def entropy(self, distribution: Bernoulli)", "        return distribution.log_prob(action)\n\n    def entropy(self, distribution: Bernoulli)", "fire", "C16.2"),
@@ -594,4 +1006,38 @@ VARIANTS = [
      '        logits = logits if action_mask is not None else self.apply_mask(logits, action_mask)\n\n        # Distribution from logits\n', 'fire', 'C16.7'),
     ('bernoulli-single-component-unsummed', _DF, '        return distribution.log_prob(action).sum(dim=1)\n\n    def entropy(self, distribution: Bernoulli)',
      '        return distribution.log_prob(action).sum(dim=1) if action.shape[-1] > 1 else distribution.log_prob(action)\n\n    def entropy(self, distribution: Bernoulli)', 'fire', 'C16.2'),
+    # apply_mask: every logit meets the mask entry at its own position — whichever way the function is written (element-wise on the whole tensor / per piece)
+    ('mask-whole-tensor-at-once-ok', _DF, _AP_DISPATCH,
+     '        maskable_spaces = (spaces.Discrete, spaces.MultiDiscrete, spaces.MultiBinary)\n        if not isinstance(self.action_space, maskable_spaces):\n'
+     '            raise NotImplementedError("not supported")\n\n        return apply_action_mask_discrete(logits, mask)\n', 'silent', None),
+    ('mask-whole-tensor-multibinary-rejected', _DF, _AP_DISPATCH,
+     '        maskable_spaces = (spaces.Discrete, spaces.MultiDiscrete)\n        if not isinstance(self.action_space, maskable_spaces):\n'
+     '            raise NotImplementedError("not supported")\n\n        return apply_action_mask_discrete(logits, mask)\n', 'fire', 'C16.7'),
+    ('mask-whole-tensor-others-not-rejected', _DF, _AP_DISPATCH, '        return apply_action_mask_discrete(logits, mask)\n', 'fire', 'C16.7'),
+    ('mask-whole-tensor-first-column-only', _DF, _AP_DISPATCH,
+     '        if not isinstance(self.action_space, (spaces.Discrete, spaces.MultiDiscrete, spaces.MultiBinary)):\n            raise NotImplementedError("not supported")\n\n'
+     '        return torch.cat([apply_action_mask_discrete(logits[:, :1], mask[:, :1]), logits[:, 1:]], dim=1)\n', 'fire', 'C16.7'),
+    ('mask-whole-tensor-one-kind-unmasked', _DF, _AP_DISPATCH,
+     '        if not isinstance(self.action_space, (spaces.Discrete, spaces.MultiDiscrete, spaces.MultiBinary)):\n            raise NotImplementedError("not supported")\n'
+     '        if isinstance(self.action_space, spaces.MultiBinary):\n            return logits\n\n        return apply_action_mask_discrete(logits, mask)\n', 'fire', 'C16.7'),
+    ('mask-whole-tensor-mask-mirrored', _DF, _AP_DISPATCH,
+     '        if not isinstance(self.action_space, (spaces.Discrete, spaces.MultiDiscrete, spaces.MultiBinary)):\n            raise NotImplementedError("not supported")\n\n'
+     '        return apply_action_mask_discrete(logits, mask.flip(1))\n', 'fire', 'C16.7'),
+    # a list filled once per iteration <-> the comprehension over the same loop; splits passed directly <-> through temporaries
+    ('mask-pieces-comprehension-ok', _DF, _AP_BUILD, '            masked_logits = [apply_action_mask_discrete(lg, mk) for lg, mk in zip(torch.split(logits, splits, dim=1), split_masks)]\n', 'silent', None),
+    ('mask-pieces-comprehension-masks-reversed', _DF, _AP_BUILD, '            masked_logits = [apply_action_mask_discrete(lg, mk) for lg, mk in zip(split_logits, reversed(split_masks))]\n', 'fire', 'C16.7'),
+    ('mask-pieces-some-skipped', _DF, _AP_BUILD, '            masked_logits = []\n            for split_logits, split_mask in zip(split_logits, split_masks):\n                if split_mask.any():\n'
+     '                    masked_logits.append(apply_action_mask_discrete(split_logits, split_mask))\n', 'fire', 'C16.7'),
+    ('mask-pieces-reassembled-backwards', _DF, 'masked_logits = torch.cat(masked_logits, dim=1)', 'masked_logits = torch.cat(masked_logits[::-1], dim=1)', 'fire', 'C16.7'),
+    ('mask-pieces-reassembled-on-batch-axis', _DF, 'masked_logits = torch.cat(masked_logits, dim=1)', 'masked_logits = torch.cat(masked_logits, dim=0)', 'fire', 'C16.7'),
+    ('mask-logits-split-by-other-sizes', _DF, 'split_logits = torch.split(logits, splits, dim=1)', 'split_logits = torch.split(logits, splits[::-1], dim=1)', 'fire', 'C16.7'),
+    ('mask-discrete-kind-not-masked', _DF, '            masked_logits = apply_action_mask_discrete(logits, mask)\n', '            masked_logits = logits\n', 'fire', 'C16.7'),
+    ('mask-split-sizes-tolist-ok', _DF, '                list(self.action_space.nvec)\n                if isinstance(self.action_space, spaces.MultiDiscrete)\n                else [self.action_space.n]\n',
+     '                self.action_space.nvec.tolist()\n                if isinstance(self.action_space, spaces.MultiDiscrete)\n                else (self.action_space.n,)\n', 'silent', None),
+    ('mask-split-sizes-n-for-multidiscrete', _DF, '                list(self.action_space.nvec)\n                if isinstance(self.action_space, spaces.MultiDiscrete)\n                else [self.action_space.n]\n',
+     '                [self.action_space.n]\n', 'fire', 'C16.7'),
+    # the conversion of the mask: one chained expression <-> step by step through a local; view(shape) <-> reshape(shape) / view_as
+    ('mask-conversion-in-steps-ok', _DF, _AP_CONV, '        as_bool = torch.as_tensor(mask, device=self.device).bool()\n        mask = as_bool.view(logits.shape)\n', 'silent', None),
+    ('mask-conversion-in-steps-flattened', _DF, _AP_CONV, '        as_bool = torch.as_tensor(mask, dtype=torch.bool, device=self.device)\n        mask = as_bool.view(-1)\n', 'fire', 'C16.7'),
+    ('mask-conversion-not-boolean', _DF, _AP_CONV, '        mask = torch.as_tensor(mask, device=self.device).view(logits.shape)\n', 'fire', 'C16.7'),
 ]
